@@ -241,7 +241,32 @@ def _has_return_in_for(fns):
     return any(walk(b, False) for _, _, b in fns)
 
 
+def fn_panel(sp_cache={}):
+    """concrete programs with functions (generated as for the whole-run jobs, without return-inside-for: that is the open known
+    finding) with their reference traces; used to confirm a failed call / return / end lemma natively"""
+    cases = []
+    sp = {IF: ['if'], ELSEIF: ['elseif'], ELSE: ['else'], ENDIF: ['end_if'], WHILE: ['while'], ENDWHILE: ['end_while'], FOR: ['for'], ENDFOR: ['end_for'], FN: ['fn', 'function'], ENDFN: ['end_fn'], END: ['end']}
+    for sd in range(900000, 900400):
+        rnd = random.Random(sd)
+        fns, main = gen_program(rnd, 2, 6)
+        if _has_return_in_for(fns): continue
+        lines = render(fns, main, sp, rnd)
+        for c1, c2 in (('true', 'false'), ('false', 'true')):
+            init = {'arr': mk_str('handle:arr'), 'c1': mk_str(c1), 'c2': mk_str(c2), 'g': mk_str('G')}
+            try: tr, env = interp(fns, main, init, {'handle:arr': [mk_str('p'), mk_str('q')]})
+            except RuntimeError: continue
+            cases.append(dict(kind='c05', script=lines, vars=dict(c1=c1, c2=c2, g='G'), array=['p', 'q'], expected_trace=str_concrete(tr),
+                              expected_vars={k: str_concrete(v) for k, v in env.items() if not k.isdigit() and k not in ('i', 'arr')}))
+    return cases
+
+
 def replayer(v):
+    if v.get('kind') == 'lemma':
+        n = 0
+        for case in fn_panel():
+            got = replayer(case); n += 1
+            if got[0]: v['native'] = case.get('native'); v['case'] = {k: x for k, x in case.items() if k != 'native'}; return (True, 'program %r: %s' % (' | '.join(case['script'])[:300], got[1]))
+        return (False, '%d generated programs with functions run as the reference interpreter natively' % n)
     script = 'arr = array %s\n' % ' '.join(v['array']) + '\n'.join(v['script'])
     out = H.replay(dict(mode='scripted_sdk', script=script, vars=v['vars'], recorders=['emit'], recorder_output='')); v['native'] = out
     if out.get('panic'): return (True, 'native panic')
@@ -261,10 +286,186 @@ def main(tier, seed):
     nprog = 120 if tier == 'quick' else 500
     seeds = [seed * 100000 + 50000 + i for i in range(nprog)]
     for gi in range(12): chk.job(job_runs, 'programs/%d' % gi, seeds=seeds[gi::12], depth=2, size=5 if tier == 'quick' else 7)
-    chk.bounds = dict(programs=nprog, per_program='every assignment of c1, c2 and the array length; array items symbolic')
+    chk.job(job_fn_steps, 'step/call, return, end of function')
+    chk.bounds = dict(step_lemmas='call / return / end of a function from an arbitrary call stack (0..2 entries below), arbitrary variables and scope stack (DESIGN.md 8.18)', programs=nprog, per_program='every assignment of c1, c2 and the array length; array items symbolic')
     chk.assumptions = ['whole runs through the real runner, the real function/return/end commands, scope push/pop and the other flow-control commands (registry built by executing flowcontrol::load) against a reference interpreter with real call frames',
                        'programs are generated (seeded); the control-flow dimension is enumerated exhaustively per program, the data dimension (array items) is decided by the solver',
                        'left open as in the property: positional variables after unscoped calls; scoped call ending without a value into an output variable that already held a value (fresh output names are generated)',
                        'calls in condition position are not generated (they go through utils::eval, C09)']
     results = chk.run()
     return chk.finish(results, 'per program and control assignment: solver query over the symbolic data; control assignments enumerated exhaustively')
+
+
+# ---------------------------------------------------------------------- step lemmas: calls and returns from an arbitrary call stack
+FM = 'sdk::std::flowcontrol::function'
+VNAMES = ['x', '1', '2', 'o', 'w']           # caller / callee variables: a plain one, the positional ones, two possible output variables
+
+
+def _fn_state(ctx, e, depth, scope_depth):
+    """function sub-state built by the REAL store_fn_info_in_state / push_to_call_stack from symbolic values: a function F with
+    arbitrary start < end and scope flag, and `depth` arbitrary call-stack entries; a scope stack of `scope_depth` arbitrary saved maps"""
+    SVT = 'types::runtime::StateValue'; SV = ctx.types.enums[SVT]; SV_LIST, SV_ANY = SV.index('List'), SV.index('Any')
+    st = State(True, {})
+    saved = []
+    for lv in range(scope_depth):
+        sd = [e.fresh_bool('saved%d.def.%s' % (lv, n)) for n in VNAMES]; sv_ = [H.sym_str(e, 'saved%d.%s' % (lv, n), 2) for n in VNAMES]
+        saved.append((sd, sv_)); 
+    stack_items = [E(SVT, SV_ANY, {SV_ANY: [e.alloc(st, M([(sd[i], mk_str(VNAMES[i]), sv_[i]) for i in range(len(VNAMES))]))]}) for sd, sv_ in saved]
+    st.m[(0, 'state')] = M([(True, mk_str('scope_stack'), E(SVT, SV_LIST, {SV_LIST: [V(scope_depth, stack_items)]}))]) if scope_depth else M([])
+    fs = e.fresh_int('F.start', 0, 50); fe = e.fresh_int('F.end', 0, 60); fb = e.fresh_bool('F.scoped')
+    e.assume(fs < fe)
+    info = T([mk_str('F'), fs, fe, fb], FM + '::FunctionMetaInfo')
+    st.m[(0, 'info')] = info
+    e.run_call(FM + '::store_fn_info_in_state', st, [P(0, 'state'), P(0, 'info')], 'sdk')
+    entries = []
+    for k in range(depth):
+        ci = dict(call_line=e.fresh_int('cs%d.call_line' % k, 0, 60), start=e.fresh_int('cs%d.start' % k, 0, 50), end=e.fresh_int('cs%d.end' % k, 0, 60),
+                  ctx=merge(e.fresh_bool('cs%d.ctx' % k), mk_str('c'), S(0, [])), out=E(OPTION, zite(e.fresh_bool('cs%d.out.present' % k), 1, 0), {0: [], 1: [merge(e.fresh_bool('cs%d.out.w' % k), mk_str('w'), mk_str('o'))]}),
+                  scoped=e.fresh_bool('cs%d.scoped' % k))
+        e.assume(ci['start'] < ci['end'])
+        entries.append(ci)
+        st.m[(0, 'ci')] = T([ci['call_line'], ci['start'], ci['end'], ci['ctx'], ci['out'], ci['scoped']], FM + '::CallInfo')
+        e.run_call(FM + '::push_to_call_stack', st, [P(0, 'state'), P(0, 'ci')], 'sdk')
+    return st, (fs, fe, fb), entries, saved
+
+
+def _pop_entries(e, st, n):
+    """pop n entries with the REAL pop_from_call_stack; [(present, CallInfo value)]"""
+    out = []
+    for _ in range(n):
+        r = e.run_call(FM + '::pop_from_call_stack', st, [P(0, 'state')], 'sdk')
+        out.append(r)
+    return out
+
+
+def _ci_eq(r, ci):
+    """Option<CallInfo> r is Some(ci)"""
+    if 1 not in r.p: return False
+    c = r.p[1][0]
+    return zand(zeq(r.d, 1), zeq(c.f[0], ci['call_line']), zeq(c.f[1], ci['start']), zeq(c.f[2], ci['end']), str_eq(c.f[3], ci['ctx']), deep_eq(c.f[4], ci['out']), zeq(c.f[5], ci['scoped']))
+
+
+def _vars(e, tag):
+    d = [e.fresh_bool('%s.def.%s' % (tag, n)) for n in VNAMES]; v = [H.sym_str(e, '%s.%s' % (tag, n), 2) for n in VNAMES]
+    return d, v, M([(d[i], mk_str(VNAMES[i]), v[i]) for i in range(len(VNAMES))])
+
+
+def _vars_are(e, st, mv, d, v, skip=()):
+    cs = []; cnt = 0; exp = 0
+    for i, n in enumerate(VNAMES):
+        f_, x_, _ = map_lookup(e, st, mv, mk_str(n))
+        if n not in skip: cs.append(zand(zeq(f_, d[i]), zimp(d[i], str_eq(x_, v[i]) if x_ is not POISON else False)))
+    for p_, k_, x_ in mv.ents: cnt = cnt + zite(p_, 1, 0)
+    for i, n in enumerate(VNAMES): exp = exp + zite(d[i], 1, 0)
+    if not skip: cs.append(zeq(cnt, exp))
+    return zand(*cs)
+
+
+def job_fn_steps(ctx, jr):
+    """call, return and end of a function as single steps from an arbitrary call stack (entries pushed by the real push_to_call_stack
+    from symbolic values), arbitrary variables and an arbitrary scope stack: recursion of any depth and call sequences of any length
+    are iterations of these steps (with the runner step lemma of C03)."""
+    from .c12 import map_eq
+    jr.bounds = dict(call_stack='0..2 arbitrary entries below the one concerned', variables=VNAMES, scope_stack='0..2 arbitrary saved maps', function='arbitrary start < end, scoped or not',
+                     claim='one-step lemmas (DESIGN.md 8.18); the iteration-state of loops left by return is the open known finding and not part of these lemmas')
+    CONT, GOTO, ERR = 0, 1, 2
+    SVT = 'types::runtime::StateValue'; SV = ctx.types.enums[SVT]; SV_LIST, SV_ANY = SV.index('List'), SV.index('Any')
+
+    def scope_stack_of(e, st):
+        f_, ss, _ = map_lookup(e, st, e.read(st, ('mem', 0, 'state', [])), mk_str('scope_stack'))
+        return f_, (ss.p[SV_LIST][0] if isinstance(ss, E) and SV_LIST in ss.p else V(0, []))
+    # ---- A. the call
+    for depth in (0, 1, 2):
+        e = ctx.engine(unwind=8, max_rec=6); e.int_digits = 2; t0 = time.time()
+        st, (fs, fe, fb), entries, saved = _fn_state(ctx, e, depth, 1)
+        d0, v0, V0 = _vars(e, 'caller'); st.m[(0, 'vars')] = V0
+        na = e.fresh_int('nargs', 0, 2); a1 = H.sym_str(e, 'a1', 2); a2 = H.sym_str(e, 'a2', 2)
+        known = e.fresh_bool('function.known'); L = e.fresh_int('L', 0, 60)
+        outv = E(OPTION, zite(e.fresh_bool('out.present'), 1, 0), {0: [], 1: [merge(e.fresh_bool('out.w'), mk_str('w'), mk_str('o'))]})
+        st.m[(0, 'args')] = V(na, [a1, a2])
+        rv = e.run_call(FM + '::run_call', st, [merge(known, mk_str('F'), mk_str('G')), P(0, 'args'), P(0, 'state'), P(0, 'vars'), outv, L], 'sdk')
+        obs = [(znot(known), zeq(rv.d, ERR), 'calling an undefined function is the error result')]
+        obs.append((known, zand(zeq(rv.d, GOTO), zeq(rv.p[GOTO][0].d, 0), zeq(rv.p[GOTO][1].d, 1), zeq(rv.p[GOTO][1].p[1][0], fs + 1)) if GOTO in rv.p else False, 'a call jumps to the first line of the body with no output of its own'))
+        post_vars = e.read(st, ('mem', 0, 'vars', []))
+        exp_d = list(d0); exp_v = list(v0)
+        for i_, (nm, av) in enumerate((('1', a1), ('2', a2))):
+            k_ = VNAMES.index(nm); exp_d[k_] = zor(zand(znot(fb), d0[k_]), na > i_); exp_v[k_] = merge(na > i_, av, v0[k_])
+        for k_, nm in enumerate(VNAMES):
+            if nm not in ('1', '2'): exp_d[k_] = zand(znot(fb), d0[k_])
+        obs.append((known, _vars_are(e, st, post_vars, exp_d, exp_v), 'the body sees ${1}..${n} bound to the argument values; a <scope> function sees nothing else of the caller, a plain one sees everything'))
+        sf, ss = scope_stack_of(e, st)
+        if len(ss.it) >= 2:
+            top = e.deref(st, ss.it[1].p[SV_ANY][0]) if isinstance(ss.it[1], E) and SV_ANY in ss.it[1].p else M([])
+            obs.append((zand(known, fb), zand(zeq(ss.len, 2), _vars_are(e, st, top, d0, v0)), 'a <scope> call saves the variables of the caller on the scope stack'))
+        obs.append((zand(known, znot(fb)), zeq(ss.len, 1), 'a plain call leaves the scope stack alone'))
+        pops = _pop_entries(e, st, depth + 1)
+        newci = dict(call_line=L, start=fs, end=fe, ctx=S(0, []), out=outv, scoped=fb)
+        obs.append((known, _ci_eq(pops[0], newci), 'the call is recorded on top of the call stack: call line, body range, output variable, scope flag'))
+        for k in range(depth): obs.append((known, _ci_eq(pops[1 + k], entries[depth - 1 - k]), 'the entries below are untouched'))
+        for g, cnd, msg in obs: e.obligations.append(Obligation(g, cnd, 'C05 call lemma (stack depth %d): %s' % (depth, msg), 'assert', 'oracle'))
+        jr.symex_time += time.time() - t0
+        res = discharge_known(e, jr, PID, {}, lambda m, o=None, depth=depth: dict(kind='lemma', level='fn', step='call', depth=depth))
+        H.finish_job(jr, e, res)
+    # ---- B. return / C. end of function
+    for step in ('return', 'end'):
+        for below in (0, 1, 2):
+            e = ctx.engine(unwind=8, max_rec=6); e.int_digits = 2; t0 = time.time()
+            st, _, entries, saved = _fn_state(ctx, e, below + 1, 1)
+            top = entries[-1]
+            dc, vc, Vc = _vars(e, 'callee'); st.m[(0, 'vars')] = Vc
+            L = e.fresh_int('L', 0, 60)
+            na = e.fresh_int('nargs', 0, 1); val = H.sym_str(e, 'value', 2)
+            argv = V(na if step == 'return' else 0, [val])
+            ctxv = T([argv, P(0, 'state'), P(0, 'vars'), none(), PV(V(0, [])), P(0, 'cmds'), L, P(0, 'env')], 'types::command::CommandInvocationContext')
+            st.m[(0, 'cmds')] = T([M([]), M([])], 'types::command::Commands'); st.m[(0, 'env')] = T([Opaque('out'), Opaque('err'), e.alloc(st, False)], 'types::env::Env')
+            ty = FM + ('::ReturnCommand' if step == 'return' else '::EndFunctionCommand')
+            f = e.find_method(ty, 'Command', 'run', 'sdk')
+            if f is None: raise NotRecognised('no run impl for ' + ty)
+            rs, rv = e.call_fn(f, st, [PV(T([mk_str('std::flowcontrol')], ty)), ctxv])
+            if rs is None: raise Abort('%s never returns' % step)
+            inside = zand(top['start'] < L, top['end'] > L) if step == 'return' else zeq(top['end'], L)
+            match = zand(inside, zeq(top['ctx'].len, 0))          # the current line context name is the default (empty) one
+            sd, sv_ = saved[0]
+            oname = top['out'].p[1][0]; has_o = zeq(top['out'].d, 1)
+            obs = []
+            post_vars = e.read(rs, ('mem', 0, 'vars', []))
+            obs.append((zand(rs.g, znot(match)), zand(zeq(rv.d, CONT), _vars_are(e, rs, post_vars, dc, vc)), '%s outside the body of the innermost call does nothing' % step))
+            with_val = zand(na > 0) if step == 'return' else False
+            gv_ok = zand(zeq(rv.d, GOTO), zeq(rv.p[GOTO][1].d, 1), zeq(rv.p[GOTO][1].p[1][0], top['call_line'] + 1), zeq(rv.p[GOTO][0].d, zite(with_val, 1, 0)) if step == 'return' else zeq(rv.p[GOTO][0].d, 0)) if GOTO in rv.p else False
+            obs.append((zand(rs.g, match), gv_ok, '%s resumes behind the call line' % step))
+            # variables afterwards
+            def expected(scoped):
+                base_d, base_v = (list(sd), list(sv_)) if scoped else (list(dc), list(vc))
+                loose = []
+                if step == 'return':
+                    for k_, nm in enumerate(VNAMES):
+                        if nm in ('o', 'w'):
+                            hit = zand(has_o, str_eq(oname, mk_str(nm)))
+                            if scoped:
+                                base_d[k_] = zor(base_d[k_], zand(hit, with_val)); base_v[k_] = merge(zand(hit, with_val), val, base_v[k_])
+                            else:
+                                base_d[k_] = zite(hit, with_val, base_d[k_]); base_v[k_] = merge(zand(hit, with_val), val, base_v[k_])
+                return base_d, base_v
+            for scoped in (False, True):
+                bd, bv = expected(scoped)
+                g_ = zand(rs.g, match, zeq(top['scoped'], scoped))
+                if scoped and step == 'return':
+                    # corner left open by the property: a <scope> function that ends without a value into an output variable that already held one
+                    for k_, nm in enumerate(VNAMES):
+                        f_, x_, _ = map_lookup(e, rs, post_vars, mk_str(nm))
+                        open_ = zand(has_o, str_eq(oname, mk_str(nm)), znot(with_val)) if nm in ('o', 'w') else False
+                        obs.append((zand(g_, znot(open_)), zand(zeq(f_, bd[k_]), zimp(bd[k_], str_eq(x_, bv[k_]) if x_ is not POISON else False)), 'after a <scope> call the %s of the caller is as before (plus the returned value)' % nm))
+                else:
+                    obs.append((g_, _vars_are(e, rs, post_vars, bd, bv), ('after a <scope> call the variables of the caller are exactly as before' if scoped else 'a plain function leaves its variables; the output variable gets the value or becomes undefined')))
+            sf, ss = scope_stack_of(e, rs)
+            obs.append((zand(rs.g, match), zeq(ss.len, zite(top['scoped'], 0, 1)), 'the saved scope is taken off exactly for a <scope> call'))
+            obs.append((zand(rs.g, znot(match)), zeq(ss.len, 1), 'otherwise the scope stack is untouched'))
+            pops = _pop_entries(e, rs, below + 1)
+            for k in range(below): obs.append((zand(rs.g, match), _ci_eq(pops[k], entries[below - 1 - k]), 'the call is taken off the call stack, the entries below are untouched'))
+            obs.append((zand(rs.g, match), zeq(pops[below].d, 0), 'nothing else is on the call stack'))
+            obs.append((zand(rs.g, znot(match)), _ci_eq(pops[0], top), 'outside the body the call stack is untouched'))
+            for g, cnd, msg in obs: e.obligations.append(Obligation(g, cnd, 'C05 %s lemma (%d below): %s' % (step, below, msg), 'assert', 'oracle'))
+            jr.symex_time += time.time() - t0
+            res = discharge_known(e, jr, PID, {}, lambda m, o=None, step=step, below=below: dict(kind='lemma', level='fn', step=step, depth=below))
+            witness(jr, e, '%s lemma: inside the body of a <scope> call with an output variable' % step, zand(rs.g, match, top['scoped'], has_o), lambda m, o=None: dict(kind='lemma', level='fn'))
+            H.finish_job(jr, e, res)
